@@ -89,7 +89,9 @@ def get_fs(waterfall):
     df = waterfall.header['foff']
     fchans = waterfall.header['nchans']
 
-    return np.arange(fch1, fch1 + fchans * df, df)
+    # Build from the channel index; np.arange with a floating point step can
+    # return one element too many or too few
+    return fch1 + np.arange(fchans) * df
 
 
 def get_ts(waterfall):
@@ -114,4 +116,4 @@ def get_ts(waterfall):
     tsamp = waterfall.header['tsamp']
     tchans = waterfall.container.selection_shape[0]
 
-    return np.arange(0, tchans * tsamp, tsamp)
+    return np.arange(tchans) * tsamp
